@@ -189,6 +189,9 @@ pub struct AuxPow {
     pub coinbase_mask: u32,
     pub chain_branch: Vec<H256>,
     pub chain_mask: u32,
+    /// CompactSize form of the two branch lengths: low nibble for the coinbase branch, high nibble for the chain branch
+    /// (0 shortest, 1 0xfd form, 2 0xfe form, 3 0xff form); the same lengths, stored wider than necessary
+    pub branch_wide: u8,
     pub parent_header: Header,
 }
 
@@ -196,12 +199,12 @@ impl AuxPow {
     pub fn ser(&self) -> Vec<u8> {
         let mut v = self.parent_coinbase.ser();
         v.extend_from_slice(&self.parent_hash);
-        v.extend(compact_size(self.coinbase_branch.len() as u64));
+        v.extend(compact_size_wide(self.coinbase_branch.len() as u64, self.branch_wide & 15));
         for h in &self.coinbase_branch {
             v.extend_from_slice(h);
         }
         v.extend_from_slice(&self.coinbase_mask.to_le_bytes());
-        v.extend(compact_size(self.chain_branch.len() as u64));
+        v.extend(compact_size_wide(self.chain_branch.len() as u64, self.branch_wide >> 4));
         for h in &self.chain_branch {
             v.extend_from_slice(h);
         }
@@ -219,7 +222,10 @@ pub struct Block {
 }
 
 pub fn merkle_root(mut level: Vec<H256>) -> H256 {
-    assert!(!level.is_empty());
+    // no transactions: the all-zero hash (Bitcoin Core's ComputeMerkleRoot of an empty list)
+    if level.is_empty() {
+        return [0u8; 32];
+    }
     while level.len() > 1 {
         if level.len() % 2 == 1 {
             let l = *level.last().unwrap();
